@@ -116,9 +116,12 @@ FormC(rec, pos) ==
           C13_form_len    |-> d.ok => rec.r[3] = len /\ rec.r[4] = len,
           C13_form_bits   |-> d.ok /\ rec.r[3] = len => rec.b2 = d.bits /\ rec.b3 = d.bits,
           C13_form_net    |-> d.ok /\ rec.r[3] = len /\ rec.b2 = d.bits => PrefixEq(rec.a2, d.net, d.bits),
-          C13_form_reject |-> ~d.ok => rec.r[3] = 0,
+          (* C13 allows "every other string" to be rejected OR parsed harmlessly, so the documented     *)
+          (* rejections are not contract conjuncts: a text of a reject family that is accepted is DRIFT. *)
+          Drift_form_reject |-> /\ ~d.ok => rec.r[3] = 0
+                                /\ f.k \in {"c6", "c4"} => rec.r[1] = 0,
           C13_form_plain  |-> f.k \in {"p6", "p4"} => rec.r[1] = len /\ rec.r[2] = len /\ rec.a0 = d.net,
-          C13_form_nobits |-> f.k \in {"c6", "c4"} => rec.r[1] = 0 /\ rec.r[2] = len - 1 - Len(NatText(f.n)) ]
+          C13_form_nobits |-> f.k \in {"c6", "c4"} => rec.r[2] = len - 1 - Len(NatText(f.n)) ]
 
 MaskC(rec, pos) ==
     LET a == rec.a
